@@ -215,8 +215,12 @@ inductive Guard where
 /-- one row of the regenerated guard table -/
 structure GuardEntry where
   id : Nat                 -- stable row number (position in the generated table)
+  isMsg : Bool             -- an rpc method of a custom module's gRPC Msg service (false: legacy gov content / route)
   hasAuthorityField : Bool -- the message struct has an `Authority` field
-  ownerOnly : Bool         -- named owner-only by the property (translator's fixed list)
+  govOnly : Bool           -- governance-only by declaration: `Authority` field, or `cosmos.msg.v1.signer` = authority,
+                           -- or declared in a governance service (a service other than `Msg`)
+  ownerOnly : Bool         -- derived by the extractor: the handler compares the signer with a stored non-authority
+                           -- value (owner / creator / buyer / controller / proposer) or looks up the signer's own object
   guard : Guard            -- what the extractor found
   guardFirst : Bool        -- no store write / bank call precedes the guard on the analysed path
   deriving DecidableEq, Repr
